@@ -237,6 +237,13 @@ def gen_cases(thorough):
                     tds.append(td)
                     vals += [struct_value(td, 0), struct_value(td, 1)]
                 add(tds, vals, "%s structs with %d fields" % (kind, n))
+    # wide shapes: two-digit field positions; named fields whose declaration order is not alphabetical
+    wt = [types[i % len(types)] for i in range(12)]
+    wn = ["width", "height", "z9", "z10", "b", "a", "_2", "_10", "r#type", "r#as", "Z", "y"]
+    tdw = [TypeDef("W0", struct=Shape("tuple", [F(None, t) for t in wt])), TypeDef("W1", struct=Shape("named", [F(nm, t) for nm, t in zip(wn, wt)])),
+           TypeDef("W2", variants=[("A", Shape("tuple", [F(None, t) for t in wt])), ("B", Shape("named", [F(nm, t) for nm, t in zip(wn, wt)]))])]
+    add(tdw, [struct_value(tdw[0], 0), struct_value(tdw[0], 1), struct_value(tdw[1], 0), struct_value(tdw[1], 1)] + [variant_value(tdw[2], vn, sh, 0) for vn, sh in tdw[2].variants],
+        "wide structs and variants (12 fields)")
     # B. enums
     vkinds = {
         "unit": Shape("unit", []), "t0": Shape("tuple", []), "n0": Shape("named", []), "t1": Shape("tuple", [F(None, "i32")]),
